@@ -6,8 +6,10 @@
    here a resolver is ANY program over client queries).  The client is the LocalClient
    model of Client.v (validated against Go by C14's correspondence). *)
 From Coq Require Import List.
-From DepsDev Require Import Lib.Base Lib.Interleave Resolve.MatchReq Resolve.Client Resolve.Client_proofs
-  Resolve.Purity_proofs.
+From Coq Require Import ZArith NArith.
+From DepsDev Require Import Lib.Base Lib.Order Lib.Interleave Gen.ResolveTables Resolve.Attr Resolve.MatchReq
+  Resolve.MatchReq_proofs Resolve.Client Resolve.Client_proofs Resolve.Purity_proofs.
+From DepsDev Require Properties.C12.
 Import ListNotations.
 
 (* Resolving never changes what the client subsequently reports: no lookup writes. *)
@@ -43,6 +45,21 @@ Theorem C05_concurrent_store : forall O var G sched (rs : list (resolver G)) c,
 Proof. exact interleaving_leaves_store. Qed.
 Print Assumptions C05_concurrent_store.
 
-(* Insertion order: two histories of additions that leave the same live versions make the
-   client report the same lists (Properties/C12.v, C12_perm, under its side condition that
-   no two distinct spellings compare equal for Maven/PyPI: known finding F-C12-1). *)
+(* Insertion order: two histories of additions that leave the same live versions in a
+   package (for instance the same additions in another order) make the client report the
+   same Versions and the same MatchingVersions for every requirement, hence give every
+   resolver the same answers.  Stated for the tree with the C12/C14 repairs in (the variant
+   tied to the tree is detected on every run by replaying the recorded witnesses);
+   Properties/C12.v has the general form with its side conditions and the refuted forms
+   for the earlier variants. *)
+Theorem C05_insertion_order : forall O ops1 ops2 k vs1 vs2,
+  laws_ok O ->
+  Forall (add_parses O) ops1 -> Forall (add_parses O) ops2 ->
+  Forall add_concrete ops1 -> Forall add_concrete ops2 ->
+  (forall k', vk_pkg k' = vk_pkg k -> option_map fst (last_add ops1 k') = option_map fst (last_add ops2 k')) ->
+  versions_of (run O var_repaired ops1) (vk_pkg k) = Ok vs1 ->
+  versions_of (run O var_repaired ops2) (vk_pkg k) = Ok vs2 ->
+  vs1 = vs2 /\
+  matching_versions O var_repaired (run O var_repaired ops1) k = matching_versions O var_repaired (run O var_repaired ops2) k.
+Proof. exact Properties.C12.C12_perm_repaired. Qed.
+Print Assumptions C05_insertion_order.
